@@ -78,6 +78,7 @@ harness!(rt_retain__s8_8g0, rt_retain, S8_8G0);
 harness!(rt_retain__s8_8g4, rt_retain, S8_8G4);
 harness!(rt_retain__s8_e, rt_retain, S8_E);
 harness!(rt_retain__s16_8, rt_retain, S16_8);
+harness!(rt_retain__s8m0_4a, rt_retain, S8M0_4A);
 
 /// `pm`: concrete answer mask over the predicate's call index; `j`: next() calls made on the
 /// iterator (END = until exhausted, then once more); `forget`: mem::forget instead of drop.
@@ -165,6 +166,7 @@ harness!(rt_drain_filter__s8_4a_m0000_end, rt_drain_filter, S8_4A, (0b0000, END,
 harness!(rt_drain_filter__s8_4a_m1111_end, rt_drain_filter, S8_4A, (0b1111, END, false));
 harness!(rt_drain_filter__s8_4a_m1100_end, rt_drain_filter, S8_4A, (0b1100, END, false));
 harness!(rt_drain_filter__s8_4a_m0011_end, rt_drain_filter, S8_4A, (0b0011, END, false));
+harness!(rt_drain_filter__s8_4a_m0111_end, rt_drain_filter, S8_4A, (0b0111, END, false));
 harness!(rt_drain_filter__s8_4a_m0110_end, rt_drain_filter, S8_4A, (0b0110, END, false));
 harness!(rt_drain_filter__s8_4a_m1010_j1, rt_drain_filter, S8_4A, (0b1010, 1, false));
 harness!(rt_drain_filter__s8_4a_m1100_j1, rt_drain_filter, S8_4A, (0b1100, 1, false));
